@@ -286,7 +286,7 @@ func (g *genCtx) gen(t *rapid.T, depth int, thenLeft bool) *Node {
 	}
 	kinds := []string{"atom", "not", "and", "and", "or", "or"}
 	if g.cfg.Data {
-		kinds = append(kinds, "then", "then")
+		kinds = append(kinds, "then", "then", "seq")
 		if g.cfg.Captures {
 			kinds = append(kinds, "cap")
 		}
@@ -313,6 +313,33 @@ func (g *genCtx) gen(t *rapid.T, depth int, thenLeft bool) *Node {
 		nd := &Node{Kind: kind, ExplicitAnd: rapid.Bool().Draw(t, "explicit")}
 		for i := 0; i < n; i++ {
 			nd.Kids = append(nd.Kids, g.gen(t, depth-1, thenLeft))
+		}
+		return nd
+	case "seq":
+		// a long chain of plain payload filters, some without a direction or as a choice of two: every
+		// chain length up to 8 meets alternatives at every position
+		n := rapid.IntRange(3, 8).Draw(t, "seqlen")
+		nd := &Node{Kind: KThen}
+		alts := 0
+		for i := 0; i < n; i++ {
+			a := genDataAtom(t, g.cfg, rapid.SampledFrom(DataPool).Draw(t, "regex").Regex)
+			if a.Key == "data" {
+				if alts >= 3 {
+					a.Key = "cdata"
+				}
+				alts++
+			}
+			k := &Node{Kind: KAtom, Atom: a}
+			if alts < 3 && rapid.IntRange(0, 5).Draw(t, "choice") == 0 {
+				b := genDataAtom(t, g.cfg, rapid.SampledFrom(DataPool).Draw(t, "regex").Regex)
+				if b.Key == "data" {
+					b.Key = "sdata"
+				}
+				b.Conv = a.Conv
+				k = &Node{Kind: KOr, Kids: []*Node{k, {Kind: KAtom, Atom: b}}}
+				alts++
+			}
+			nd.Kids = append(nd.Kids, k)
 		}
 		return nd
 	case "then":
